@@ -305,6 +305,11 @@ func main() {
 		fmt.Printf("VIOLATION property=%s replay=%s kind=%s rule=%s key=%s at %s: %s\n", prop.ID, path, o.Verdict, o.Rule, o.Key, o.Pos, oneLine(o.Detail))
 	}
 
+	var sens *sensitivityResult
+	if *tier == "thorough" && !*noEvidence && *onlyRule == "" && len(failing) == 0 {
+		sens = measureSensitivity(*repo, *verifDir, prop, baseline, known, *tier)
+		fmt.Println("  " + sens.line())
+	}
 	wall := time.Since(start).Seconds()
 	if !*noEvidence && *onlyRule == "" {
 		samples := sampleObligations(allObs, 60)
@@ -332,6 +337,7 @@ func main() {
 					"packages": stats.Packages, "files": stats.Files, "function_decls": stats.Functions, "lines": stats.Lines,
 					"build_configurations": configsOK,
 				},
+				"sensitivity": sens,
 				"checker_cmd": "bin/connectlint -repo " + *repo + " -property " + prop.ID + " -tier " + *tier,
 				"trusted_base": []string{
 					"go/types, go/cfg, go/ssa from golang.org/x/tools v0.29.0 and the Go toolchain's go list",
